@@ -1616,7 +1616,11 @@ class Preconditioner:
   def _preconds_for_grad(self, preconditioners, rank, start, end):
     """Returns a slice of preconditioners of length rank."""
     preconditioners_for_grad = preconditioners[start:end]
-    if self._preconditioner_type == PreconditionerType.INPUT:
+    if rank <= 1:
+      # Preconditioner types are ignored for rank <= 1 (see
+      # should_precondition_dims): every axis has its own preconditioner.
+      pass
+    elif self._preconditioner_type == PreconditionerType.INPUT:
       # When _preconditioner_type is INPUT, we append a None value to the end of
       # the list to handle the False index.
       preconditioners_for_grad = preconditioners_for_grad + [None]
